@@ -25,7 +25,8 @@ MANIFEST = dict(
         "meets given the eigen-solver specification (zca_output, regular covariance); PCA: orthonormal directions "
         "=> decoder(encoder(x)) is idempotent, its residual is orthogonal to all directions and it is the closest point of mean+span (pca_projection); "
         "small-sample branch: eigenvectors of XX^T/l lift to eigenvectors of the covariance with the same eigenvalue and squared norm l*lambda "
-        "(pca_small_sample_agrees, pca_small_sample_agrees_model), encoded training data have covariance diag(eigenvalues) (pca_encoded_covariance); "
+        "(pca_small_sample_agrees, pca_small_sample_agrees_model), encoded training data have covariance diag(eigenvalues) (pca_encoded_covariance) and, with whitening, diag(1,..,1,0,..) "
+        "(pca_whitened_covariance); "
         "LDA: with z_c*C = m_c the installed linear discriminant ranks classes exactly like the Gaussian log-posterior with shared covariance C "
         "(lda_bayes_rule), statistics batch independent (lda_batch_independent); weighted LDA statistics are invariant under scaling all weights "
         "(weights_scale_invariant); FisherLDA's global mean sum_c n_c m_c / n is the mean of the inputs (fisher_mean; the pinned source divides twice, F-C15-6). "
